@@ -122,7 +122,10 @@ fn read_field_type(chars: &mut Peekable<Chars>) -> Result<Type> {
 					char = chars.next().ok_or_else(|| anyhow!("unexpected abrupt ending of descriptor"))?;
 				}
 
-				// SAFETY: Between `L` and `;` in an descriptor is always a valid object class name.
+				if !crate::tree::names::is_valid_obj_class_name(&s) {
+					bail!("invalid class name {s:?} in descriptor");
+				}
+				// SAFETY: We just checked that the name between `L` and `;` is a valid object class name.
 				let class_name = unsafe { ObjClassName::from_inner_unchecked(s) };
 				Type::Object(class_name)
 			},
@@ -153,7 +156,10 @@ fn read_field_type(chars: &mut Peekable<Chars>) -> Result<Type> {
 					char = chars.next().ok_or_else(|| anyhow!("unexpected abrupt ending of descriptor"))?;
 				}
 
-				// SAFETY: Between `L` and `;` in an descriptor is always a valid class name.
+				if !crate::tree::names::is_valid_obj_class_name(&s) {
+					bail!("invalid class name {s:?} in descriptor");
+				}
+				// SAFETY: We just checked that the name between `L` and `;` is a valid (object) class name.
 				let class_name = unsafe { ClassName::from_inner_unchecked(s) };
 				Type::Array(array_dimension, ArrayType::Object(class_name))
 			},
